@@ -40,10 +40,15 @@ def handle (op : String) (a r : Json) : Except String Reply := do
     let tblList ← names.mapM fun n => do pure ((← getNat n "hash"), (← getHex n "name"))
     let tbl : Nat → Option Bytes := fun h => (tblList.find? fun x => x.1 == h).map (·.2)
     let bytes ← getHex a "bytes"
+    -- decode_total: whatever the bytes, the decoder answers (packet or error); it never panics
+    let noPanic := (optField r "panic").isNone
+    let rep (m : Json) : Reply :=
+      { m := m, prop := some noPanic, why := if noPanic then "" else "translateDataToMessage panicked on these bytes",
+        sig := if noPanic then "" else "C02/decode-panics" }
     match decode layoutFacts tbl bytes with
-    | .ok m => pure { m := jObj [("ok", msgJson m)] }
-    | .error .short => pure { m := jObj [("err", Json.str "short")] }
-    | .error .hash => pure { m := jObj [("err", Json.str "hash")] }
+    | .ok m => pure (rep (jObj [("ok", msgJson m)]))
+    | .error .short => pure (rep (jObj [("err", Json.str "short")]))
+    | .error .hash => pure (rep (jObj [("err", Json.str "hash")]))
   | _ => throw s!"bad-op wire {op}"
 
 end Receptor.Drive.Wire
